@@ -1,6 +1,145 @@
-(* C08 — validity masks follow the data. *)
-From DF Require Import Prelude NDArray Valid.
+(* C08 — Validity masks follow the data through every operation that keeps or maps cells.
+   Statements only.  [veval] is the executable model of the code (what each operation hands to the
+   constructor + the `valid` setter's normalisation, with rejections); [sem] is the plain reading of
+   the property (operand masks, cell-wise AND, gathers).  Masks have arbitrary shapes and sizes. *)
+From DF Require Import Prelude NDArray Valid C08_arrays C08_valid.
+Open Scope nat_scope.
 
-Theorem C08_setter_provenance_fresh : forall p, setter_prov p = PFresh.
+(* --- unary operations (neg, abs, component, norm, orientation, complex parts, diff, scalar
+       operands, one-field ufuncs, grad/div/curl/laplace) return the operand's validity *)
+Theorem C08_unary : forall u v, wf v -> unop_ok u -> un_sem u v = OK v.
+Proof. exact un_sem_ok. Qed.
+Print Assumptions C08_unary.
+
+Example C08_unary_nonvacuous : wf (mkM [2; 1] [true; false]) /\ unop_ok (UGrad 2).
+Proof. split; [reflexivity | exact I]. Qed.
+
+(* --- binary operations between fields on the same mesh: cell-wise AND; otherwise rejected *)
+Theorem C08_binary_and : forall b v1 v2, wf v1 -> wf v2 -> msh v1 = msh v2 ->
+  bin_sem b v1 v2 = OK (and_cells v1 v2) /\
+  forall k, nth k (mcells (and_cells v1 v2)) true = nth k (mcells v1) true && nth k (mcells v2) true.
+Proof.
+  exact (fun b v1 v2 H1 H2 E => conj (bin_sem_ok b v1 v2 H1 H2 E)
+           (fun k => nth_map2_andb (mcells v1) (mcells v2) k
+                       (eq_trans H1 (eq_trans (f_equal nprod E) (eq_sym H2))))).
+Qed.
+Print Assumptions C08_binary_and.
+
+Example C08_binary_and_nonvacuous :
+  bin_sem BCross (mkM [3] [true; true; false]) (mkM [3] [false; true; true]) = OK (mkM [3] [false; true; false]).
+Proof. reflexivity. Qed.
+
+Theorem C08_binary_rejects_other_mesh : forall b v1 v2, msh v1 <> msh v2 -> bin_sem b v1 v2 = Err ValueE.
+Proof. exact bin_sem_rejects. Qed.
+Print Assumptions C08_binary_rejects_other_mesh.
+
+(* --- every composition: the model of the code computes exactly the plain reading *)
+Theorem C08_expr : forall env e, Forall wf env -> forall v, veval env e = OK v -> v = sem env e /\ wf v.
+Proof. exact veval_sem. Qed.
+Print Assumptions C08_expr.
+
+Theorem C08_expr_shape : forall env e, Forall wf env -> forall v, veval env e = OK v ->
+  eshape (map msh env) e = Some (msh v).
+Proof. exact veval_shape. Qed.
+Print Assumptions C08_expr_shape.
+
+Theorem C08_expr_total : forall env e, Forall wf env -> unops_ok e -> forall sh,
+  eshape (map msh env) e = Some sh -> exists v, veval env e = OK v /\ msh v = sh.
+Proof. exact veval_total. Qed.
+Print Assumptions C08_expr_total.
+
+(* validity of any expression of unary and binary operations = AND over its field leaves *)
+Theorem C08_expr_and_over_leaves : forall env sh e i, same_shape env sh -> map_free e = true ->
+  (forall k, In k (leaves e) -> k < length env) ->
+  mget (sem env e) i = forallb (fun k => mget (nth k env (mkM [] [])) i) (leaves e).
+Proof. exact sem_and_over_leaves. Qed.
+Print Assumptions C08_expr_and_over_leaves.
+
+Example C08_expr_nonvacuous :
+  veval [mkM [2] [true; false]; mkM [2] [true; true]]
+        (Bin BAdd (Un UNeg (Leaf 0)) (Map (MRot90 false 0 0 0) (Leaf 1))) = Err ValueE /\
+  veval [mkM [2] [true; false]; mkM [2] [true; true]]
+        (Bin BAdd (Un UNeg (Leaf 0)) (Map (MPad PWrap 0 0 0 false) (Leaf 1))) = OK (mkM [2] [true; false]).
+Proof. split; reflexivity. Qed.
+
+(* --- selection, extraction, padding, resampling, rotation, HDF5/VTK: the result cell reads the
+       operand's validity at the cell the index map of the DATA sends it to *)
+Theorem C08_mapped : forall env m e i,
+  inb (map_shape m (msh (sem env e))) i = true ->
+  mget (sem env (Map m e)) i =
+  match map_idx m (msh (sem env e)) i with
+  | Some j => mget (sem env e) j
+  | None => map_fill m
+  end.
+Proof. exact sem_map_pointwise. Qed.
+Print Assumptions C08_mapped.
+
+(* the gather is the same for every cell-wise payload (values, validity) *)
+Theorem C08_mapped_same_for_data_and_validity : forall (A B : Type) (g : A -> B) m sh fill (src : idx -> A) i,
+  gather m sh (g fill) (fun j => g (src j)) i = g (gather m sh fill src i).
+Proof. exact @gather_natural. Qed.
+Print Assumptions C08_mapped_same_for_data_and_validity.
+
+Theorem C08_mapped_model : forall m v, wf v -> map_ok m (msh v) = true -> map_sem m v = OK (sem_map m v).
+Proof. exact map_sem_ok. Qed.
+Print Assumptions C08_mapped_model.
+
+(* --- codecs *)
+Theorem C08_roundtrip_vtk : forall v, wf v -> vtk_decode (msh v) (vtk_encode v) = OK v.
+Proof. exact (fun v H => eq_trans (vtk_roundtrip v H) (f_equal OK (mtab_self v H))). Qed.
+Print Assumptions C08_roundtrip_vtk.
+
+Theorem C08_roundtrip_hdf5 : forall n nvdim vals cells, length cells = nprod n ->
+  set_valid n nvdim vals (VArray n (map SB cells)) = OK (mkM n cells).
+Proof. exact set_valid_bool_array. Qed.
+Print Assumptions C08_roundtrip_hdf5.
+
+(* --- a result's validity is its own *)
+Theorem C08_own_partial : forall e, is_leaf (strip_pos e) = false -> eprov e = PFresh.
+Proof. exact eprov_fresh. Qed.
+Print Assumptions C08_own_partial.
+
+Theorem C08_own_classification : forall e,
+  eprov e = PFresh \/ exists k, strip_pos e = Leaf k /\ eprov e = PView k.
+Proof. exact eprov_own. Qed.
+Print Assumptions C08_own_classification.
+
+(* faithful model of `__pos__` (`return self`): the full statement is false (known finding
+   C08-pos-returns-self) *)
+Theorem C08_own_refuted : exists e k, e <> Leaf k /\ eprov e = PView k.
+Proof. exact eprov_pos_aliases. Qed.
+Print Assumptions C08_own_refuted.
+
+(* --- the setter *)
+Theorem C08_setter_shape : forall n nvdim vals v m, set_valid n nvdim vals v = OK m -> msh m = n /\ wf m.
+Proof. exact set_valid_shape. Qed.
+Print Assumptions C08_setter_shape.
+
+Theorem C08_setter_keeps_values : forall f v f', assign_valid f v = OK f' ->
+  fvals f' = fvals f /\ fn f' = fn f /\ fnvdim f' = fnvdim f /\ msh (fvalid f') = fn f /\ wf (fvalid f').
+Proof. exact assign_valid_keeps_values. Qed.
+Print Assumptions C08_setter_keeps_values.
+
+Theorem C08_setter_integer_mask : forall n nvdim vals zs, length zs = nprod n ->
+  set_valid n nvdim vals (VArray n (map SI zs)) = OK (mkM n (map (fun z => negb (z =? 0)%Z) zs)).
+Proof. exact set_valid_int_array. Qed.
+Print Assumptions C08_setter_integer_mask.
+
+Theorem C08_setter_own : forall p, setter_prov p = PFresh.
 Proof. exact (fun p => eq_refl). Qed.
-Print Assumptions C08_setter_provenance_fresh.
+Print Assumptions C08_setter_own.
+
+Theorem C08_setter_norm : forall n nvdim vals k, k < nprod n ->
+  forall m, set_valid n nvdim vals VNorm = OK m ->
+  nth k (mcells m) true = norm_valid (nth k (chunks nvdim (nprod n) vals) []).
+Proof. exact set_valid_norm. Qed.
+Print Assumptions C08_setter_norm.
+
+Theorem C08_norm_threshold : forall atol v, norm_valid_at atol v = true <-> (atol * atol < sumsq v)%Q.
+Proof. exact norm_valid_iff. Qed.
+Print Assumptions C08_norm_threshold.
+
+Theorem C08_norm_zero_vector_invalid : forall atol v, Forall (fun x => x == 0)%Q v -> (0 <= atol)%Q ->
+  norm_valid_at atol v = false.
+Proof. exact norm_valid_zero. Qed.
+Print Assumptions C08_norm_zero_vector_invalid.
